@@ -29,3 +29,51 @@ def poly(d):
 
 def is_const(p, c):
     return p == ({(): float(c)} if c != 0 else {})
+
+
+def _mulp(a, b):
+    out = {}
+    for ka, va in a.items():
+        for kb, vb in b.items():
+            k = tuple(sorted(ka + kb))
+            out[k] = out.get(k, 0.0) + va * vb
+    return {k: v for k, v in out.items() if abs(v) > 1e-9}
+
+
+def _addp(a, b, sign=1.0):
+    out = dict(a)
+    for k, v in b.items():
+        out[k] = out.get(k, 0.0) + sign * v
+    return {k: v for k, v in out.items() if abs(v) > 1e-9}
+
+
+def rat(d):
+    """rational normal form (numerator poly, denominator poly): add/sub/mul/div/neg/powi(k)/const expanded, the rest atoms"""
+    h = d[0]
+    if h == 'const' and isinstance(d[1], (int, float)) and not isinstance(d[1], bool):
+        return ({(): float(d[1])} if d[1] != 0 else {}), {(): 1.0}
+    if h in ('add', 'sub'):
+        (n1, d1), (n2, d2) = rat(d[1]), rat(d[2])
+        return _addp(_mulp(n1, d2), _mulp(n2, d1), 1.0 if h == 'add' else -1.0), _mulp(d1, d2)
+    if h == 'neg':
+        n, dd = rat(d[1])
+        return {k: -v for k, v in n.items()}, dd
+    if h == 'mul':
+        (n1, d1), (n2, d2) = rat(d[1]), rat(d[2])
+        return _mulp(n1, n2), _mulp(d1, d2)
+    if h == 'div':
+        (n1, d1), (n2, d2) = rat(d[1]), rat(d[2])
+        return _mulp(n1, d2), _mulp(d1, n2)
+    if h == 'call' and d[1] == 'f64::powi' and len(d) == 4 and d[3][0] == 'const' and isinstance(d[3][1], int) and 0 <= d[3][1] <= 4:
+        n, dd = rat(d[2])
+        rn, rd = {(): 1.0}, {(): 1.0}
+        for _ in range(d[3][1]):
+            rn, rd = _mulp(rn, n), _mulp(rd, dd)
+        return rn, rd
+    return {(show(d),): 1.0}, {(): 1.0}
+
+
+def rat_equal(a, b):
+    """a == b as rational functions (cross-multiplied polynomial identity)"""
+    (n1, d1), (n2, d2) = rat(a), rat(b)
+    return _addp(_mulp(n1, d2), _mulp(n2, d1), -1.0) == {}
